@@ -4,62 +4,33 @@ import PyYetiVerif.Model.Op4Input
 namespace PyYetiVerif.Op4
 open PyYetiVerif.Generated.Op4Consts
 
-theorem writeOneWords_dense (add : Nat → Nat → Nat) (e : Endian) (lay : Layout) (w : WMat)
-    (hnowrap : lay = .dense → ∀ name form A, w = .sp name form A → ∀ c, c < A.ncols →
-      recLen .dense A.cplx (denseCol add A c) < 2147483648) :
+theorem writeOneWords_dense (add : Nat → Nat → Nat) (e : Endian) (lay : Layout) (w : WMat) :
     writeOneWords add e lay w = writeMatWords e lay (w.dense add) := by
   cases w with
   | nd m => rfl
   | sp name form A =>
-    have hdom : lay = .dense → ∀ c, c < A.ncols → recLen .dense A.cplx (denseCol add A c) < 2147483648 :=
-      fun hl => hnowrap hl name form A rfl
-    have henc := encMatWordsSp_eq add e lay name form A hdom
+    have henc := encMatWordsSp_eq add e lay name form A
     simp only [writeOneWords, writeMatWords, WMat.dense]
     rw [henc]
     have hlen : (denseMat add name form A).cols.length = A.ncols := by simp [denseMat]
-    have hall : (lay = .dense ∨ (List.range A.ncols).all
-          (fun c => decide (recLen lay A.cplx (denseCol add A c) < 2147483648)) = true) ↔
+    have hall : ((List.range A.ncols).all
+          (fun c => decide (recLen lay A.cplx (denseCol add A c) < 2147483648))) =
         (denseMat add name form A).cols.all
-          (fun col => decide (recLen lay (denseMat add name form A).cplx col < 2147483648)) = true := by
+          (fun col => decide (recLen lay (denseMat add name form A).cplx col < 2147483648)) := by
       simp only [denseMat, List.all_map, Function.comp_def]
-      constructor
-      · rintro (hl | h)
-        · subst hl
-          rw [List.all_eq_true]
-          intro c hc
-          exact decide_eq_true (hdom rfl c (by simpa using hc))
-        · exact h
-      · intro h; exact Or.inr h
-    simp only [hlen]
-    have hr : (denseMat add name form A).rows = A.rows := rfl
-    have hf : (denseMat add name form A).form = form := rfl
-    rw [hr, hf]
-    by_cases hdim : A.rows > 2147483647 ∨ A.ncols > 2147483647
-    · simp [hdim]
-    · simp only [hdim, if_false]
-      by_cases h1 : form < 2147483648 ∧ A.ncols + 1 < 2147483648
-      · by_cases h2 : (lay = .dense ∨ (List.range A.ncols).all
-            (fun c => decide (recLen lay A.cplx (denseCol add A c) < 2147483648)) = true)
-        · have h2' := hall.1 h2
-          rw [if_pos ⟨h1.1, h1.2, h2⟩, if_pos ⟨h1.1, h1.2, h2'⟩]
-          rfl
-        · have h2' : ¬ _ := fun hh => h2 (hall.2 hh)
-          rw [if_neg (fun hh => h2 hh.2.2), if_neg (fun hh => h2' hh.2.2)]
-      · rw [if_neg (fun hh => h1 ⟨hh.1, hh.2.1⟩), if_neg (fun hh => h1 ⟨hh.1, hh.2.1⟩)]
+      rfl
+    simp only [hlen, hall]
+    rfl
 
 theorem writeAllWords_dense (add : Nat → Nat → Nat) (e : Endian) : ∀ (ws : List (Layout × WMat)),
-    (∀ p ∈ ws, p.1 = .dense → ∀ name form A, p.2 = .sp name form A → ∀ c, c < A.ncols →
-      recLen .dense A.cplx (denseCol add A c) < 2147483648) →
     writeAllWords add e ws = writeFileWords e (ws.map fun p => (p.1, p.2.dense add)) := by
   intro ws
   induction ws with
-  | nil => intro _; rfl
+  | nil => rfl
   | cons p t ih =>
-    intro h
     obtain ⟨lay, w⟩ := p
     simp only [writeAllWords, List.map_cons, writeFileWords]
-    rw [writeOneWords_dense add e lay w (h (lay, w) List.mem_cons_self),
-      ih fun q hq => h q (List.mem_cons_of_mem _ hq)]
+    rw [writeOneWords_dense add e lay w, ih]
 
 theorem writeOneAscii_dense (add : Nat → Nat → Nat) (d : Nat) (lay : Layout) (w : WMat) :
     writeOneAscii add d lay w = encMatAscii d lay (w.dense add) := by
